@@ -145,6 +145,9 @@ def main(argv=None):
             fams.append(f)
             continue
         fams.append(f)
+    if os.environ.get("VERIF_ONLY_SLOW"):
+        # maintenance runs (tools/bounds_from_log.py): only the families the quick tier does not decide
+        fams = [f for f in fams if not getattr(f, "hunt", False) and (f.tier == "thorough" or any(fnmatch.fnmatch(f.key, pat) for pat in slow))]
     if args.list:
         for f in fams:
             print(f.key)
@@ -195,7 +198,7 @@ def main(argv=None):
         by_key = {f.key: f for f in fams}
         opts2 = dict(opts)
         opts2["timeout_ms"] = opts["timeout_ms"] * 4
-        opts2["hard_s"] = opts["hard_s"] * 3
+        opts2["hard_s"] = int(opts["hard_s"] * 1.5)
         again = driver.run_all([by_key[results[i]["key"]] for i in retry], opts2, procs=args.procs, progress=progress)
         redo = {r["key"]: r for r in again}
         for i in retry:
